@@ -40,6 +40,7 @@ type VirtualMachine struct {
 	importer     importer.Importer
 	os           os.OS
 	modules      map[string]*object.Module
+	importing    map[string]bool
 	inputGlobals map[string]any
 	globals      map[string]object.Object
 	loadedCode   map[*compiler.Code]*code
@@ -1053,10 +1054,20 @@ func (vm *VirtualMachine) importModule(ctx context.Context, name string) (*objec
 	if vm.importer == nil {
 		return nil, fmt.Errorf("imports are disabled")
 	}
+	// A module that is imported again while its own top-level code is still
+	// running is part of an import cycle: its code must not run a second time.
+	if vm.importing[name] {
+		return nil, fmt.Errorf("import error: import cycle detected for module %q", name)
+	}
 	module, err := vm.importer.Import(ctx, name)
 	if err != nil {
 		return nil, err
 	}
+	if vm.importing == nil {
+		vm.importing = map[string]bool{}
+	}
+	vm.importing[name] = true
+	defer delete(vm.importing, name)
 	// Activate a new frame to evaluate the module code
 	baseFP := vm.fp
 	baseIP := vm.ip
